@@ -29,6 +29,11 @@ func parseLen(p []byte) (int, error) {
 		return -1, nil
 	}
 
+	// redis only accepts canonical decimal numbers: no leading zeros, and nothing near the range of an int
+	if (p[0] == '0' && len(p) > 1) || len(p) > 10 {
+		return -1, codec.ErrInvalidResp
+	}
+
 	var n int
 	for _, b := range p {
 		n *= 10
